@@ -337,7 +337,9 @@ class GridBlueprint(yamlize.Object):
         # set geometric metadata on spatialGrid. This information is needed in various
         # parts of the code and is best encapsulated on the grid itself rather than on
         # the container state.
-        spatialGrid._geomType: str = str(self.geom)
+        # through the setter, as the grid constructor (and hence a database load) does: the
+        # orientation of a hex grid is carried by its unit steps, the geometry type is "hex"
+        spatialGrid.geomType = self.geom
         self.symmetry = str(symmetry)
         spatialGrid._symmetry: str = self.symmetry
         return spatialGrid
